@@ -354,7 +354,8 @@ def gen_event_type_enum(k, name, info, counts, skipped):
     L.append('        assert(r.view() =~= s@%s);' % (''.join(' || ' + a for a in alias_cases)))
     L.append('    }')
     L.append('}')
-    return '\n'.join(L), {'enum': name, 'variants': len(variants), 'spellings': len(spellings), 'aliases': len(alias_cases), 'wildcards': len(wild)}
+    return '\n'.join(L), {'enum': name, 'variants': len(variants), 'spellings': len(spellings), 'aliases': len(alias_cases), 'wildcards': len(wild),
+                          'table': sorted([l, v] for l, v in spellings) + sorted([p + '*', v] for v, p in wild)}
 
 
 def gen_enum(k, name, info, counts, skipped, cmp_impls=None):
@@ -481,7 +482,8 @@ def gen_enum(k, name, info, counts, skipped, cmp_impls=None):
         L.append('        assert(e == %s::%s);' % (short, v))
     L.append('    }')
     L.append('}')
-    return '\n'.join(L), {'enum': name, 'variants': len(variants), 'spellings': len(spellings), 'aliases': len(alias_cases), 'string_form_comparisons': sorted(cmp_impls.keys()) if cmp_impls else []}
+    return '\n'.join(L), {'enum': name, 'variants': len(variants), 'spellings': len(spellings), 'aliases': len(alias_cases), 'string_form_comparisons': sorted(cmp_impls.keys()) if cmp_impls else [],
+                          'table': sorted([l, v] for l, v in spellings)}
 
 
 PRELUDE = '''// GENERATED by tools/enumgen.py from the compiler's macro expansion of %(crate)s (on this run).
